@@ -655,3 +655,43 @@ def c02(trace, V):
                 {"code_optimum": code, "physical_optimum": ref_p, "relative": (code - ref_p) / max(1.0, abs(ref_p)),
                  "round": rec["index"] + 1},
                 "reported optimum exceeds what is achievable when meat cannot be eaten before it is slaughtered")
+
+
+# =========================================================================== C08 (engine-P slice)
+def c08_rounds(trace, V):
+    """The supply series handed to the optimiser of rounds 2 and 3 must still be the round-1
+    series (only meat, milk, feed and biofuel may differ between rounds), and every series of
+    every round has exactly N finite, non-negative values."""
+    if not trace.rounds:
+        return
+
+    def series(rec):
+        tc, co = rec["time_consts"], rec["consts"]
+        N = co["NMONTHS"]
+        return N, {
+            "outdoor_crops": np.array(tc["outdoor_crops"].production.kcals, float),
+            "greenhouse_crops": np.array(tc["greenhouse_crops"].kcals, float),
+            "fish": np.array(tc["fish"].to_humans.kcals, float),
+            "methane_scp": np.array(tc["methane_scp"].kcals, float),
+            "cellulosic_sugar": np.array(tc["cellulosic_sugar"].kcals, float),
+            "seaweed_built_area": np.array(tc["built_area"], float)[:N],
+            "seaweed_growth": np.array(tc["growth_rates_monthly"], float)[:N],
+            "initial_stored_food": np.atleast_1d(np.array(co["stored_food"].initial_available.kcals, float)),
+        }
+
+    N0, first = series(trace.rounds[0])
+    for rec in trace.rounds:
+        N, cur = series(rec)
+        for name, arr in cur.items():
+            ok = (name == "initial_stored_food" or len(arr) == N) and bool(np.isfinite(arr).all()) and bool((arr >= 0).all())
+            V.check("rounds_shape", ok, {"series": name, "round_type": rec["type"]},
+                    lambda: {"len": len(arr), "N": N, "min": float(np.nanmin(arr)) if len(arr) else None, "round": rec["index"] + 1},
+                    "a supply series handed to the optimiser does not have N finite non-negative values")
+            if rec is trace.rounds[0]:
+                continue
+            same = arr.shape == first[name].shape and bool((arr == first[name]).all())
+            V.check("rounds_keep_supplies", same, {"series": name, "round_type": rec["type"]},
+                    lambda: {"round": rec["index"] + 1, "month": first_bad(arr != first[name]) if arr.shape == first[name].shape else None,
+                             "round1": first[name][:3], "this_round": arr[:3]},
+                    "a supply series (other than meat, milk, feed, biofuel) differs between round 1 and a later round")
+    trace.probe("c08_rounds_compared", max(0, len(trace.rounds) - 1))
